@@ -72,6 +72,9 @@ CHECKS["C09"] = {
             {"run": "TestVfC09PackLimit", "quick": 16000, "thorough": 800000, "shards_quick": 8, "shards_thorough": 16,
              "timeout_thorough": 3000},
         ]},
+        {"engine": "E", "proxy": ["plain"], "tests": [
+            {"run": "TestVfC09Listeners", "quick": 800, "thorough": 24000, "shards_quick": 8, "shards_thorough": 16, "timeout_thorough": 3400},
+        ]},
     ],
     "assumptions": [
         "OPT RDATA <= 200 octets, at most one OPT, 0-1 question (what the proxy itself produces and relays)",
@@ -110,6 +113,9 @@ CHECKS["C15"] = {
     "parts": [
         {"engine": "P", "pkg": "internal/limiter", "tests": [
             {"run": "TestVfC15Limiter", "quick": 30000, "thorough": 2000000, "shards_quick": 6, "shards_thorough": 16, "timeout_thorough": 3000},
+        ]},
+        {"engine": "E", "proxy": ["plain"], "tests": [
+            {"run": "TestVfC15Listeners", "quick": 96, "thorough": 2400, "shards_quick": 8, "shards_thorough": 16, "timeout_thorough": 3400},
         ]},
     ],
     "assumptions": [
